@@ -247,6 +247,15 @@ func runC13(c *Ctx) {
 			cpu.Interrupt = pendingReq
 		}
 
+		// every 8th terminating program is entered the way a host re-enters after a HALT: the
+		// halted indication still set and an NMI pending.  Nothing but whole Steps may
+		// happen to the state, whatever the context does.
+		staleNMI := pg.Halts && call%8 == 3
+		if staleNMI {
+			cpu.HALT = true
+			cpu.Interrupt = z80.NMIInterrupt()
+		}
+
 		// context and cancellation mode
 		mode := []string{"cancel-in-callback", "cancel-in-callback", "cancel-from-goroutine", "cancelled-before-call", "deadline-expired", "deadline-1ms", "child-of-cancelled-parent", "never",
 			"cancel-with-cause", "timeout-with-cause", "child-of-parent-cancelled-with-cause", "device-panics", "device-goexit"}[r.Intn(13)]
@@ -446,6 +455,9 @@ func runC13(c *Ctx) {
 				}
 			}
 			twin := &z80.CPU{States: pre, Memory: tm, IO: &mon.IO{Seed: fill}}
+			if staleNMI {
+				twin.Interrupt = z80.NMIInterrupt()
+			}
 			for tm.Count < mem.Count {
 				twin.Step()
 			}
